@@ -1645,13 +1645,26 @@ class QueryBuilder(Selectable, Term):  # type:ignore[misc]
         querystring += self._offset_sql(ctx)
         return querystring
 
+    @staticmethod
+    def _reads_from(query: Any, name: str | None) -> bool:
+        if isinstance(query, _SetOperation):
+            operands = [query.base_query] + [operand for _, operand in query._set_operation]
+            return any(QueryBuilder._reads_from(operand, name) for operand in operands)
+        sources = list(getattr(query, "_from", [])) + [
+            join.item for join in getattr(query, "_joins", [])
+        ]
+        return any(
+            (isinstance(source, AliasedQuery) and source.name == name)
+            or (isinstance(source, Table) and source._schema is None and source._table_name == name)
+            for source in sources
+        )
+
     def _with_sql(self, ctx: SqlContext) -> str:
-        all_alias = [with_.alias for with_ in self._with]
-        recursive = False
-        for with_ in self._with:
-            if with_.query.from_ in all_alias:  # type:ignore[operator,union-attr]
-                recursive = True
-                break
+        # a CTE is recursive when its body (an operand of its set operation) reads from the CTE's own name;
+        # SQL Server and Oracle recurse without a keyword
+        recursive = ctx.dialect not in (Dialects.MSSQL, Dialects.ORACLE) and any(
+            self._reads_from(with_.query, with_.alias) for with_ in self._with
+        )
 
         as_ctx = ctx.copy(subquery=False, with_alias=False)
         return f"WITH {'RECURSIVE ' if recursive else ''}" + ",".join(
